@@ -447,6 +447,34 @@ func interruptTest(t *testing.T, PROP string, fateChoices []string) {
 
 // ---- C06 ----------------------------------------------------------------------
 
+// feedsRunTimeMap: does a map call split over an output of the call at
+// callPath (the call's forks get created from what this call returns)?
+func feedsRunTimeMap(prog *mrogen.Program, callPath string) bool {
+	parts := strings.Split(callPath, ".")
+	if len(parts) < 2 {
+		return false
+	}
+	pcall, _ := resolveCall(prog, strings.Join(parts[:len(parts)-1], "."))
+	if pcall == nil {
+		return false
+	}
+	pl := prog.Pipeline(pcall.Callee)
+	if pl == nil {
+		return false
+	}
+	id := parts[len(parts)-1]
+	for _, c := range pl.Calls {
+		for _, b := range c.Bindings {
+			if sp, ok := b.E.(mrogen.Split); ok {
+				if r, ok := sp.E.(mrogen.Ref); ok && r.Call == id {
+					return true
+				}
+			}
+		}
+	}
+	return false
+}
+
 // badOuts returns the outputs of the job with one value replaced by one that
 // is definitely not of the declared type ("" if no such replacement exists).
 func badOuts(prog *mrogen.Program, j *simrun.Job, outs *jsonx.Obj, pick int) (string, string) {
@@ -505,6 +533,13 @@ func TestFaults(t *testing.T) {
 		for k := range excluded {
 			delete(excluded, k)
 		}
+		faultsCase(t, root, prog)
+	})
+}
+
+// faultsCase: one program, one or two faults at generated jobs, restarts.
+func faultsCase(t *rapid.T, root string, prog *mrogen.Program) {
+	{
 		rc, ix, _, done := newCase(t, root, "fault", prog, "C06")
 		if rc == nil {
 			return
@@ -558,20 +593,28 @@ func TestFaults(t *testing.T) {
 					return false
 				}
 				kinds := []string{"errors", "errors", "assert"}
-				switch j.Phase {
-				case "main", "join":
+				rejectable := true
+				if stats.Known("C06/dependent-map-call-disabled-after-restart") && feedsRunTimeMap(prog, j.CallPath) {
+					// known finding: outputs rejected by mrp + restart, when
+					// a map call splits over this call's output
+					rejectable = false
+					stats.Count("C06", "excluded_known:rejected-outputs-of-map-source", 1)
+				}
+				switch {
+				case !rejectable:
+				case j.Phase == "main" || j.Phase == "join":
 					if len(j.Stage.Outs) > 0 {
 						// (a stage without outputs is not asked for any)
 						kinds = append(kinds, "invalid-outs", "missing-key", "wrong-type")
 					}
-				case "chunk":
+				case j.Phase == "chunk":
 					if len(j.Stage.Outs) > 0 || len(j.Stage.ChunkOuts) > 0 {
 						// a chunk (first, middle or last of its fork) that
 						// exits cleanly but leaves unreadable outputs: found
 						// when the join is prepared
 						kinds = append(kinds, "invalid-outs", "invalid-outs")
 					}
-				case "split":
+				case j.Phase == "split":
 					kinds = append(kinds, "bad-stage-defs")
 				}
 				kind = rapid.SampledFrom(kinds).Draw(t, "kind")
@@ -713,7 +756,7 @@ func TestFaults(t *testing.T) {
 		stats.Case("C06", nontrivial, stats.Digest(rc.src, strings.Join(rc.history, "|")), classes, func() any {
 			return map[string]any{"program": stats.Trunc(rc.src, 1200), "faults": classes, "schedule": stats.Trunc(strings.Join(rc.history, "; "), 800)}
 		})
-	})
+	}
 }
 
 func jsonNumber(s string) any { return json.Number(s) }
